@@ -233,6 +233,21 @@ func AccumLoop(ci ssa.CallInstruction) (acc *ssa.Phi, bound ssa.Value, buf ssa.V
 			L = b.Y
 		}
 		if L == nil {
+			// `remaining > 0` forms: remaining = L - acc (directly, or a loop-carried
+			// variable initialised to L and recomputed as L - acc after each read)
+			isZero := func(v ssa.Value) bool { c, ok := ConstInt(v); return ok && c == 0 }
+			var rem ssa.Value
+			switch {
+			case b.Op == token.GTR && isZero(b.Y) && f.Pol, b.Op == token.LEQ && isZero(b.Y) && !f.Pol, b.Op == token.NEQ && isZero(b.Y) && f.Pol:
+				rem = b.X
+			case b.Op == token.LSS && isZero(b.X) && f.Pol, b.Op == token.GEQ && isZero(b.X) && !f.Pol:
+				rem = b.Y
+			}
+			if rem != nil {
+				L = remainderBound(rem, phi)
+			}
+		}
+		if L == nil {
 			continue
 		}
 		// the buffer is exactly L long (so the read cannot overshoot the field)
@@ -306,4 +321,57 @@ func ClassifyRead(ci ssa.CallInstruction) ReadSite {
 		return rs
 	}
 	return rs
+}
+
+// remainderBound: v is `L - acc` for the accumulator phi acc (or for its advanced value
+// acc+n), or a loop-carried variable all of whose edges are L itself or such a difference.
+// Returns L.
+func remainderBound(v ssa.Value, acc *ssa.Phi) ssa.Value {
+	isAcc := func(x ssa.Value) bool {
+		x = stripValue(x)
+		if x == ssa.Value(acc) {
+			return true
+		}
+		for _, e := range acc.Edges {
+			if _, isC := e.(*ssa.Const); !isC && stripValue(e) == x {
+				return true
+			}
+		}
+		return false
+	}
+	diff := func(x ssa.Value) ssa.Value {
+		if b, ok := stripValue(x).(*ssa.BinOp); ok && b.Op == token.SUB && isAcc(b.Y) {
+			return b.X
+		}
+		return nil
+	}
+	v = stripValue(v)
+	if L := diff(v); L != nil {
+		return L
+	}
+	ph, ok := v.(*ssa.Phi)
+	if !ok {
+		return nil
+	}
+	var L ssa.Value
+	for _, e := range ph.Edges {
+		if d := diff(e); d != nil {
+			if L != nil && !(L == d || sameExpr(L, d)) {
+				return nil
+			}
+			L = d
+		}
+	}
+	if L == nil {
+		return nil
+	}
+	for _, e := range ph.Edges {
+		if diff(e) != nil {
+			continue
+		}
+		if !(stripValue(e) == stripValue(L) || sameExpr(e, L)) {
+			return nil
+		}
+	}
+	return L
 }
